@@ -196,6 +196,7 @@ func runC11(c *core.Ctx, r *core.Reporter) {
 	c11propagate(c, r)
 	c11skip(c, r)
 	c11walk(c, r, "C11.walk")
+	c10shadow(c, r, "C11.shadow")
 	c11insertpos(c, r)
 }
 
